@@ -6,6 +6,10 @@ ALL = ["C%02d" % i for i in range(1, 21)]
 
 # property -> (level, design_ref, engine, technique, level text, level note)
 CLAIMED = {
+ "C12": ("model_checking", "DESIGN.md §2 C12", "vp",
+   "bounded-exhaustive enumeration of configuration/log-call histories on the real logging core with an absolute reference matcher and a differential fresh-twin call-site oracle",
+   "Every history up to the stated depth over filter ADD/REMOVE/CLEAR_ALL (exact file, function alternatives, format substring, '*', the three regex types, two priority windows), tag SET/CLEAR/CLEAR_ALL, enable/disable, close/reopen on two custom targets and log calls from four call sites is run after a fresh qb_log_init. Each log call must reach exactly the enabled targets whose stored rules select the site (reference implementation of the documented matching) exactly once with the tag of the last matching tag rule; every call is doubled by a twin call site seen for the first time at that moment, which must be routed identically (order independence); an epilogue logs all sites and fresh twins.",
+   "Depth 3 over the full alphabet, depth 4 over filters only in thorough; REMOVE/TAG_CLEAR are judged only where it is unambiguous which stored rule is meant; syslog target disabled."),
  "C16": ("model_checking", "DESIGN.md §2 C16", "vp",
    "preemption-bounded exhaustive exploration of producer histories against libqb's own logging thread run as a coroutine (TSan-ABI scheduling points in lib/log_thread.c, wrapped pthread/semaphore/lock calls)",
    "Every legal producer history up to the stated depth over init, custom_open, set-threaded, thread_start, enable/disable, reconfigure, log, close, fini and re-init is executed with the real logging thread as a second coroutine; every interleaving up to the preemption bound at each memory access of lib/log_thread.c and each synchronisation call is explored, one forked process per execution. Oracle: each message written exactly once, in order, by the time qb_log_fini returns (or accounted for by the 'messages lost' report in the 130 x 4000-byte burst runs), no deadlock, no sanitizer report, second init/start/log/fini cycle equal to the first.",
